@@ -429,13 +429,25 @@ func Run(sc *Scenario) (string, interface{}, *Event, error) {
 		}
 		return "rejection-not-reported", detail, ev, nil
 	}
-	if len(sc.Rejected) > 0 && !strings.Contains(out, "rejected") {
+	if len(sc.Rejected) > 0 && runErr == nil && !reportsRefusal(out) {
 		return "rejection-not-reported", detail, ev, nil
 	}
 	if !fetch && runErr != nil {
 		return "command-failed", detail, ev, nil
 	}
 	return "", nil, ev, nil
+}
+
+// reportsRefusal: "reported" is judged by the output saying so in ANY of the usual words (the exact
+// wording is not part of the statement), or marking a line with '!'.
+func reportsRefusal(out string) bool {
+	l := strings.ToLower(out)
+	for _, w := range []string{"reject", "refus", "denied", "declin", "non-fast", "not fast", "clobber", "fail", "error", " ! ", "cannot", "can't", "unable"} {
+		if strings.Contains(l, w) {
+			return true
+		}
+	}
+	return false
 }
 
 func tail(s string, n int) string {
